@@ -317,7 +317,10 @@ func c18DvSafe(rng *Rng, sqref string) (*xl.DataValidation, map[string]string) {
 	dv := xl.NewDataValidation(rng.Bool())
 	dv.Sqref = sqref
 	w1, w2 := "", ""
-	switch rng.Intn(3) {
+	switch rng.Intn(4) {
+	case 3:
+		w1 = rng.Pick(c18DvSources)
+		dv.SetSqrefDropList(w1)
 	case 0:
 		a, b := rng.Range(-5, 100), rng.Range(0, 1000)
 		_ = dv.SetRange(a, b, xl.DataValidationTypeWhole, xl.DataValidationOperator(rng.Range(1, 8)))
@@ -345,7 +348,7 @@ func c18DvSafe(rng *Rng, sqref string) (*xl.DataValidation, map[string]string) {
 
 // data validations: add / delete / add a different one on the same cells
 func c18DvHistory(r *Run, rng *Rng) {
-	f := xl.NewFile()
+	f := c18DvBook()
 	defer func() { f.Close() }()
 	sq := []string{"A1:B2", "D1", "F3:F9", "H1:H2"}
 	type item struct {
